@@ -18,21 +18,22 @@ claim('C06',
       'paths paired with the same trait on BigInt; crate-wide discipline on what may flow into an NInt::Small (no casts, no '
       'unchecked/wrapping/checked_shl results); nobody outside nint.rs reads the representation; Eq/Ord/Hash ignore it; zero '
       'divisors are tested before exact division; div_floor/mod_floor/gcd/lcm/sqrt/pow/shifts go through BigInt; a reviewed census of truncating-remainder uses outside the '
-      'operator layers (the library\'s modulo is mod_floor).',
+      'operator layers (the library\'s modulo is mod_floor); operand roles (self, other) in every BigInt fallback.',
       'value-origin dataflow over MIR + sibling-arm agreement + abstract interpretation on the sign domain')
 claim('C08',
       'Decides structural clauses, not the order laws themselves: no lossy conversion or int/float cast reachable from any '
       'comparison entry point (call-graph closure), f64->BigInt only on floor(f) or under an integrality test, exhaustive '
       'decision tables of the eight comparison operators, max/min bias and cmp_nint_f64, mirrored (Float,Int)/(Int,Float) arms, '
       'incomparable => error, stable sort, infinities separated before partial exact conversions, and no pointer-identity shortcut (Rc::ptr_eq) anywhere in '
-      'the comparison closure (with a positive control); the folding form `into max|min` uses the same test as max|min.',
+      'the comparison closure (with a positive control); the folding form `into max|min` uses the same test as max|min; sort comparators raise on incomparable elements themselves.',
       'forbidden-callee reachability over the resolved call graph + finite decision tables from MIR')
 claim('C09',
       'Decides the Eq/Hash coherence discipline of dictionary keys structurally, not operation histories: canonical hashing '
       'sinks per numeric level (integral values through the integer hash, non-integral rationals and floats through one shared '
       'exact-fraction hash, imaginary part only when non-zero), NaN as one constant, matching element functions and kinds in key '
       'equality and key hashing, an order-independent per-entry combiner for nested dicts, key construction confined to the '
-      'validating to_key, left-operand filtering of the dict operators, and no narrowing cast or bit-count shortcut in any key hash.',
+      'validating to_key, left-operand filtering and left-operand result (map and default) of the dict operators, set() building its own map, and no narrowing cast or '
+      'bit-count shortcut in any key hash.',
       'sink/callee discipline over MIR arms + CFG cycle and dominance queries')
 claim('C11',
       'Decides structural clauses, not closed forms over values: for every impl Stream the len/force overrides agree with whether '
@@ -47,7 +48,7 @@ claim('C10',
       'takes its position from one of the shared normalisers (value-origin dataflow), accessor builtins are the documented index/slice '
       'expressions, all six sequence kinds are handled explicitly with byte-indexed strings, machine arithmetic on user indices is '
       'sign-guarded or reviewed, prefix iteration of streams requires non-negative bounds, bad indices raise, isize->usize casts in the normalisers are '
-      'sign-guarded, stream index overrides consult the cursor, absent slice-section bounds consume no argument, the clamping helper is used for slice bounds only.',
+      'sign-guarded, stream index overrides consult the cursor, absent slice-section bounds consume no argument, the clamping helper is used for slice bounds only, and only the Int level converts to an index.',
       'value-origin dataflow over MIR + accessor decision table + assert census with sign-guard dominance')
 claim('C03',
       'Decides the ingredients of operator-precedence grouping, not the grouping theorem: the exhaustive tie-break table of '
@@ -62,7 +63,7 @@ claim('C04',
       '(delegation or equal effect signature), the argument side of every partial-application wrapper in Func::run/run1/run2, '
       'constructor helpers, call-or-partially-apply, the operand order of then/./.>/<./apply/of, the read-old -> rhs -> drop -> '
       'run2(old, rhs) -> assign order of op-assign, right sections for one-argument builtin calls, the 8-row splat/section decision table, in-order slot filling of sections, and no independent run1/run2 override that run neither calls '
-      'nor mirrors (including whether the path can reject its argument).',
+      'nor mirrors (including whether the path can reject its argument), and the lexer splitting every operator run other than ! < > = before a trailing `=`.',
       'sibling-implementation cross-check + operand provenance over MIR')
 claim('C05',
       'Decides the structural rules of the documented semantics, not equivalence with a reference interpreter: the exhaustive scope '
@@ -71,14 +72,14 @@ claim('C05',
       'counts decremented by one, Return absorbed only by calls, Throw only by try), declaration vs assignment layering over the '
       'Env parent chain, short-circuit polarity of and/or/coalesce, branch exclusivity of if, refusal of a redeclaration before any map write, and '
       'the left-associative grammar layering of or/coalesce over and over chains, every use of an environment in Closure::run being the fresh '
-      'scope, the try body running in the enclosing scope, fold builtins translating their body\'s Break, and `into max|min` agreeing with max|min.',
+      'scope, the try body running in the enclosing scope, fold builtins translating their body\'s Break, `into max|min` agreeing with max|min, `into first` ending the loop, and every successful insert storing the declared type.',
       'exhaustive arm tables from HIR + CFG cycle/dominance/guard-polarity queries over MIR')
 claim('C17',
       'Decides structural agreement of the freeze traversal with the evaluator, not semantic equivalence over programs: scope copies '
       'exactly where evaluation scopes (per switch arm, catch-only, lambda, loops), binder placement and declared_only flags, identity '
       'rewrite of all Expr and Lvalue arms, every LocExpr/Lvalue child field produced by the freeze family, error exits confined to '
-      'warn == false, fully guarded constant folds, the FreezeEnv built by Expr::Freeze, union of binders across or/and patterns, shape-preserving freeze wrappers, the evaluator-side placement of the try scope, and the unary-minus '
-      'fold using the operation evaluation uses.',
+      'warn == false, fully guarded constant folds, the FreezeEnv built by Expr::Freeze, union of binders across or/and patterns, shape-preserving freeze wrappers, the evaluator-side placement of the try scope, the unary-minus '
+      'fold using the operation evaluation uses, and `_` tolerated by freeze only in section positions.',
       'sibling-traversal cross-check over HIR arms + field provenance over MIR')
 claim('C01',
       'Proof, relative to the soundness of safe Rust, of the aliasing clauses (a mutation is never visible through another holder of a '
@@ -86,7 +87,8 @@ claim('C01',
       'mutated through make_mut/get_mut are discharged as obligations - no user unsafe (with positive control), interior mutability '
       'confined to reviewed environment/memo edges over the whole type graph reachable from Obj, uniquely owned variable cells, cell '
       'writers confined to the evaluator, arguments by value - plus the read-before-write ordering of op-assign and swap, no user code under a mutable cell borrow, take/restore pairing of '
-      'moved-out string payloads, and nested writes descending into the stored slot itself (never a clone or the dict default); thorough adds '
+      'moved-out string payloads, nested writes descending into the stored slot itself (never a clone or the dict default), and no result-deciding query of the '
+      'sharing state of a payload; thorough adds '
       'compile-fail witnesses with compiling twins. Which slot a mutation addresses is not decided.',
       'type-graph reachability + who-may-call census + compile_fail witnesses (typestate enforced by rustc)', level='proof')
 claim('C02',
@@ -94,7 +96,7 @@ claim('C02',
       'really released - no-op drops only for homogeneous payloads) before the operator runs on the value read, elements are taken out '
       'before the every-function runs, every function of the in-place path goes through Rc::make_mut and contains no whole-payload '
       'copy or reallocation, consuming iterators drain unique handles, arguments travel by value, the drop before the operator is unconditional on '
-      'every path, no write closure snapshots the cell it is about to write, and the walkers never clone the element they fetched.',
+      'every path, no write closure snapshots the cell it is about to write, the walkers never clone the element they fetched, and no in-place function takes a second Rc handle to its payload.',
       'dominance (must-pass-through) + forbidden-callee census over the in-place function table')
 claim('C14',
       'Decides an exact, reviewed inventory rather than panic-freedom for all inputs: every explicit panic site and every compiler-'
@@ -122,12 +124,12 @@ claim('C16',
       'in both representations, mutual coverage of JSON kinds, no untriaged panic site in any codec body, and sign-before-split, checked '
       'exponent arithmetic and no leading-digit dropping in the exact decimal parser, the {:02x} template of hex_encode (decoded from the '
       'format_args encoding) against the decoder\'s two-digit chunks, a crate-wide lossy-cast census, and arbitrary-precision text->number '
-      'parsing (machine-typed parse sites reviewed; JSON integers through as_i64), and plain-Display rendering in repr.',
+      'parsing (machine-typed parse sites reviewed; JSON integers through as_i64), plain-Display rendering in repr, per-interpolation format flags, and last-binding-wins dict literals.',
       'paired decision tables from HIR patterns/MIR constants + census + callee discipline')
 claim('C13',
       'The equations f(xs) == reference(xs) are NOT decided (runtime values). Decided are only the clauses of the statement that are '
       'finite tables or shapes: the exhaustive kind-preservation table of the filter/sort/unique/reverse/take/drop/uncons/unsnoc helpers '
       '(input kind -> constructed kind), stable sorting and first-occurrence uniqueness, the initial element of the combinatorial streams, '
       'progress of the predicate loops over streams, non-short-circuiting row construction in ziplongest, adjacency in group-by-relation, a window-free exit of window, predicates not '
-      're-run after their first failure, and f(accumulator, element) in fold/scan.',
+      're-run after their first failure, f(accumulator, element) in fold/scan, and cartesian products always building fresh lists.',
       'finite kind tables from HIR match arms + guard-polarity query')
